@@ -24,6 +24,7 @@ def dispatch (line : String) : String :=
   | "dec" :: w => decOp w
   | "fblk" :: w => fblkOp w
   | "sink" :: w => sinkOp w | "sinkenc" :: w => sinkencOp w
+  | "encseq" :: w => encseqOp w
   | "encspec" :: w => encSpec w
   | "wf" :: w => wfOp w
   | "seq" :: w => seqOp w
